@@ -334,7 +334,11 @@ func genProps(r *Rng, pf Profile, leaf bool) map[string]string {
 	if r.Bool(pf.PriorityProps) {
 		p["priority.offset"] = fmt.Sprintf("%d", r.Range(-3, 3))
 	}
-	if r.Bool(pf.PriorityProps / 2) {
+	pp := pf.PriorityProps / 2
+	if pf.Preemption {
+		pp = pf.PriorityProps // priority fences decide which victims are eligible
+	}
+	if r.Bool(pp) {
 		p["priority.policy"] = pick(r, []string{"default", "fence"})
 	}
 	if pf.Preemption && r.Bool(0.35) {
